@@ -494,8 +494,11 @@ func listBoxWidget(c *reg.Ctx) {
 	// input classes, most specific defect-prone trait first
 	class := "listbox-vertical"
 	switch {
-	case extend && ((horizontal && padding == 0 && zeroWidth) || width <= padding+1):
-		// ExtendStyle with possibly no room for the right spacing
+	case horizontal && n > 0 && (sel < 0 || sel >= n):
+		class = "listbox-horizontal-selection-out-of-range"
+	case extend && ((horizontal && (padding >= 1 || zeroWidth)) || width <= padding+1):
+		// ExtendStyle with possibly no room for the right spacing: a column as
+		// wide as the padding (cropped last column, tiny width) or of zero width
 		class = "listbox-extendstyle-empty-spacing"
 	case ctl:
 		class = "listbox-ctl"
